@@ -9,7 +9,10 @@
 //  (c) one EVLOOP_ONCE pass runs all timers that are due, in due order; ties are
 //      unordered in libevent (coarse clock + unstable heap): insertion order in
 //      deterministic-history mode, seeded order otherwise;
-//  (d) loopbreak wakes a blocked loop.
+//  (d) loopbreak wakes a blocked loop;
+//  (e) event_base_init_common_timeout() hands out at most 256 distinct durations per base and returns NULL
+//      after that; a timer added with a NULL timeout never fires; a timer added with a common-timeout handle
+//      fires after that duration.
 // Freed events become tombstones for the rest of the run so that any later
 // use is reported as use-after-free / double-free (with the real library this
 // is undefined behaviour on freed heap memory).
@@ -48,12 +51,14 @@ struct event_base {
 	std::vector<event*> timers; // pending, unordered; few entries
 	std::vector<event*> active; // activated, callback not yet started (in order)
 	std::vector<event*> all;    // every event ever created on this base (tombstones included)
+	std::vector<timeval*> common; // common-timeout durations handed out (libevent: at most 256 per base)
 	bool freed;
 };
 
 namespace usim {
 namespace ev {
 // counters read by the harness
+long n_add_no_timeout = 0;
 long n_add = 0, n_del = 0, n_free = 0, n_fired = 0, n_loop = 0, n_break = 0, n_break_forgotten = 0, n_del_blocked = 0, n_del_while_running = 0;
 static std::vector<event_base*> g_bases;
 static std::vector<event*> g_events;
@@ -182,8 +187,14 @@ int event_add(struct event* ev, const struct timeval* tv) {
 		check_event(ev, "event_add");
 	}
 	remove_pending(ev);
-	uint64_t d = 0;
-	if (tv) d = (uint64_t)tv->tv_sec * 1000000000ull + (uint64_t)tv->tv_usec * 1000ull;
+	if (!tv) {
+		// libevent: an event added without a timeout waits for its I/O condition only; a pure timer never fires
+		ev::n_add_no_timeout++;
+		return 0;
+	}
+	uint64_t usec = (uint64_t)tv->tv_usec;
+	if ((usec & 0xf0000000ull) == 0x50000000ull) usec &= 0x000fffffull;   // a common-timeout handle (see below)
+	uint64_t d = (uint64_t)tv->tv_sec * 1000000000ull + usec * 1000ull;
 	ev->due = usim::now_ns() + d;
 	ev->ins = ++ev->base->ins_seq;
 	ev->tie = usim::deterministic_mode() ? 0 : usim::rnd(1u << 20);
@@ -191,6 +202,30 @@ int event_add(struct event* ev, const struct timeval* tv) {
 	ev->base->timers.push_back(ev);
 	ev::n_add++;
 	return 0;
+}
+
+// (e) libevent keeps at most 256 distinct "common timeout" durations per base; the handle is the duration with a magic
+// number and the slot index in the upper bits of tv_usec; for the 257th distinct duration it warns and returns NULL
+const struct timeval* event_base_init_common_timeout(struct event_base* b, const struct timeval* duration) {
+	if (!b || b->magic != BASE_MAGIC) verdict("simevent-garbage", "event_base_init_common_timeout on garbage base");
+	if (b->freed) verdict("use-after-free", "event_base_init_common_timeout on freed base");
+	if (!duration) return nullptr;
+	long sec = duration->tv_sec;
+	long usec = duration->tv_usec;
+	if ((usec & 0xf0000000l) == 0x50000000l) usec &= 0x000fffffl;
+	if (usec >= 1000000) { sec += usec / 1000000; usec %= 1000000; }
+	for (size_t i = 0; i < b->common.size(); i++) {
+		if (b->common[i]->tv_sec == sec && (b->common[i]->tv_usec & 0x000fffffl) == usec) return b->common[i];
+	}
+	if (b->common.size() >= 256) {
+		fprintf(stderr, "[warn] event_base_init_common_timeout: Too many common timeouts already in use; we only support 256 per event_base\n");
+		return nullptr;
+	}
+	timeval* t = new timeval();
+	t->tv_sec = sec;
+	t->tv_usec = usec | 0x50000000l | ((long)b->common.size() << 20);
+	b->common.push_back(t);
+	return t;
 }
 
 int event_del(struct event* ev) {
